@@ -555,3 +555,44 @@ func withAnon(fn *ssa.Function) []*ssa.Function {
 	}
 	return out
 }
+
+// unspill looks through go/ssa's spilling of results in functions with defers:
+// `*r = v; rundefers; t = *r; return t` — for the load t it returns v.
+func unspill(v ssa.Value) ssa.Value {
+	ld, ok := v.(*ssa.UnOp)
+	if !ok || ld.Op != token.MUL {
+		return v
+	}
+	cell, ok := ld.X.(*ssa.Alloc)
+	if !ok {
+		return v
+	}
+	var last ssa.Value
+	for _, i := range ld.Block().Instrs {
+		if i == ssa.Instruction(ld) {
+			break
+		}
+		if st, ok := i.(*ssa.Store); ok && st.Addr == ssa.Value(cell) {
+			last = st.Val
+		}
+	}
+	if last != nil {
+		return last
+	}
+	return v
+}
+
+// returnsOf lists the normal Return instructions of fn (the synthetic recover
+// block is skipped).
+func returnsOf(fn *ssa.Function) []*ssa.Return {
+	var out []*ssa.Return
+	for _, b := range fn.Blocks {
+		if b == fn.Recover || len(b.Instrs) == 0 {
+			continue
+		}
+		if r, ok := b.Instrs[len(b.Instrs)-1].(*ssa.Return); ok {
+			out = append(out, r)
+		}
+	}
+	return out
+}
